@@ -174,6 +174,8 @@ def plan(tier, seed):
                 specs.append({"kind": "chords", "k": k, "slice": sl, "of": shards, "lens": LENGTH_PATTERNS[pat][:k]})
     for idx, (n, m) in enumerate(hyp):
         specs.append({"kind": "blowup", "examples": n, "max_abstract": m, "seed": seed * 1000 + idx})
+    for k in range(4 if tier == "quick" else 16):
+        specs.append({"kind": "large", "examples": 3 if tier == "quick" else 40, "seed": seed * 1000 + 700 + k})
     specs.append({"kind": "shaped", "examples": 300 if tier == "quick" else 2000, "seed": seed * 1000 + 99})
     return specs
 
@@ -204,6 +206,12 @@ def run_shard(spec) -> ShardResult:
                 check_case(PROP_ID, oracle, case, res, to_json=tj)
         res.exhaustive = True
         res.extra[f"chord_diagrams_k{spec['k']}"] = res.evaluations
+    elif kind == "large":
+        # long structures; crossing groups are kept within the reference optimiser's reach (<= 10 stems)
+        strat = ssref.st_large_structures(max_pairs=80, max_cross=3).filter(lambda c: all(len(x) <= 10 for x in ssref.describe(c[0], c[1])[2]))
+        run_hypothesis(PROP_ID, strat, oracle, seed=spec["seed"], max_examples=spec["examples"], result=res, to_json=tj,
+                       classify=lambda c: (classify(c)[0], classify(c)[1] + ["large"]), sample_cap=0, shrink=False)
+        res.exhaustive = False
     elif kind == "blowup":
         run_hypothesis(PROP_ID, ssref.st_structures(max_abstract=spec["max_abstract"], min_abstract=2), oracle,
                        seed=spec["seed"], max_examples=spec["examples"], result=res, to_json=tj, classify=classify)
